@@ -117,6 +117,10 @@ func driveC07(t *testing.T, out *vEmitter) {
 		func(n string) [][2]string { return [][2]string{{strings.ToLower(n), "SPOOF-a"}, {strings.ToUpper(n), "SPOOF-b"}} },
 		func(n string) [][2]string { return [][2]string{{n, "SPOOF-a, SPOOF-b"}, {n, "SPOOF-c"}} },
 		func(n string) [][2]string { return [][2]string{{vMixCase(n), "SPOOF-a"}, {"X-Other", "keep"}, {"X-Other", "keep2"}} },
+		// repeated with an EMPTY first occurrence: Header.Get sees "", the value list is not empty
+		func(n string) [][2]string { return [][2]string{{n, ""}, {n, "SPOOF-a"}} },
+		func(n string) [][2]string { return [][2]string{{strings.ToLower(n), " "}, {n, "SPOOF-b"}, {strings.ToUpper(n), ""}} },
+		func(n string) [][2]string { return [][2]string{{n, ""}} },
 	}
 	for ci, cfg := range configs {
 		inj, err := middleware.NewRequestHeaderInjector(cfg)
@@ -168,7 +172,8 @@ func driveC07(t *testing.T, out *vEmitter) {
 							map[string]interface{}{"config": ci, "header": h.Name, "spoof_set": si, "values": seenHdr[k]})
 					}
 					for _, v := range seenHdr[k] {
-						if v == "" || strings.HasSuffix(v, "Bearer ") || strings.HasSuffix(v, "role:") || strings.Contains(v, "role:,") {
+						// (an empty value under a preserved name may be the client's own)
+						if (v == "" && strippedName) || strings.HasSuffix(v, "Bearer ") || strings.HasSuffix(v, "role:") || strings.Contains(v, "role:,") {
 							out.Violation("headers/empty-claim-injected", "a header value was injected for an empty claim",
 								map[string]interface{}{"config": ci, "header": h.Name, "values": seenHdr[k]})
 						}
